@@ -172,7 +172,7 @@ Fixpoint populate_types (fx : fixes) (c : cfg) (f : file) (tys : list Z) (r : re
           | Ok (r2, acc2) =>
               match filter_in_place fx r2 KNone true None with
               | (_, Err x) => Err x
-              | (r3, Ok _) => populate_types fx c f rest r3 acc2
+              | (r3, Ok _) => populate_types fx c f rest (if fx_populate_rewind fx then rewind r3 else r3) acc2
               end
           end
       end
